@@ -122,6 +122,7 @@ Apply(e) ==
            ELSE IF e.cas # AbsCas(ns[n].cas) THEN Fail("controller application state differs")
            ELSE IF e.tok < ns[n].tok THEN Fail("wake-up tokens differ")           \* a lost wake-up; more tokens are redundant wake-ups
            ELSE S([ns EXCEPT ![n].tok = e.tok], pc, pend, claimed)
+      [] e.ev = "hang" -> Fail("a call into the stack does not return / the stacks produce events without end")
       [] e.ev = "jobdead" -> Fail("job thread died")
       [] e.ev = "spin" -> Fail("job thread busy-spins")
       [] e.ev \in {"lost", "note", "end", "token"} -> Keep
